@@ -274,6 +274,84 @@ pub fn check_program(p: &Program, st: &mut Stats, order: u64, part: &str) -> Opt
             }
         }
     }
+    // the same bytes through sources that hand out data in pieces (a Read + Seek source may return short reads), and
+    // the lookups by name for names written exactly once (duplicates: C03 states which one wins)
+    let rich = p.comment.is_some() || !matches!(part, "date-sweep" | "time-sweep" | "perm-sweep") || order % 64 == 0;
+    if rich && p.entries.len() < 1000 {
+        let mut via: Vec<(String, Result<ObsArchive, RErr>)> = vec![];
+        let chunks: &[usize] = if bytes_f.len() <= 1500 { &[1, 7] } else { &[4093] };
+        for &c in chunks {
+            let plan = crate::sio::inst::plan();
+            plan.borrow_mut().chunk = Some(c);
+            plan.borrow_mut().record_kinds = false;
+            via.push((format!("chunk-{c}"), observe_r(crate::sio::inst::Inst::new(bytes_f.clone(), plan), None, 64 << 20)));
+        }
+        via.push(("BufReader".into(), observe_r(std::io::BufReader::new(Cursor::new(bytes_f.clone())), None, 64 << 20)));
+        if bytes_f.len() > 64 {
+            via.push(("BufReader-61".into(), observe_r(std::io::BufReader::with_capacity(61, Cursor::new(bytes_f.clone())), None, 64 << 20)));
+        }
+        for (label, r) in via {
+            match r {
+                Ok(o2) => {
+                    if o2.comment != obs.comment {
+                        ok = false;
+                        bad(&format!("via-{label}/comment"), None, format!("read through {label}: comment of {} bytes, {} through a cursor", o2.comment.len(), obs.comment.len()), st);
+                    } else if o2.entries != obs.entries || o2.offset != obs.offset {
+                        ok = false;
+                        let k = o2.entries.iter().zip(&obs.entries).position(|(a, b)| a != b);
+                        bad(&format!("via-{label}/entries"), None, format!("read through {label}: entries differ from the cursor read (first differing index {k:?}, {} vs {} entries)", o2.entries.len(), obs.entries.len()), st);
+                    }
+                }
+                Err(e) => {
+                    ok = false;
+                    bad(&format!("via-{label}/open"), None, format!("read through {label} failed: {e:?}"), st);
+                }
+            }
+        }
+    }
+    if rich {
+        if let Ok(Ok(mut ar)) = crate::util::guard(|| zip::ZipArchive::new(Cursor::new(bytes_f.as_slice()))) {
+            let mut count: std::collections::HashMap<String, usize> = Default::default();
+            for e in &p.entries {
+                *count.entry(e.expected_name()).or_default() += 1;
+            }
+            let n = p.entries.len();
+            for (i, e) in p.entries.iter().enumerate() {
+                if n > 1000 && i > 2 && i + 3 < n {
+                    continue;
+                }
+                let name = e.expected_name();
+                if count[&name] != 1 {
+                    continue;
+                }
+                let got = crate::util::guard(|| ar.by_name(&name).map(|f| (f.name().to_string(), f.size(), f.crc32())));
+                match got {
+                    Ok(Ok((gn, gs, gc))) => {
+                        if gn != name || gs != e.expected_content().len() as u64 || gc != crc32::crc32(e.expected_content()) {
+                            ok = false;
+                            bad("by_name/other-entry", Some(e), format!("by_name({:?}) returned the entry named {:?} (size {gs})", crate::util::show(name.as_bytes()), crate::util::show(gn.as_bytes())), st);
+                        }
+                    }
+                    Ok(Err(er)) => {
+                        ok = false;
+                        bad("by_name/failed", Some(e), format!("by_name({:?}) of a name written once: {er}", crate::util::show(name.as_bytes())), st);
+                    }
+                    Err(pn) => {
+                        ok = false;
+                        bad("by_name/panic", Some(e), format!("by_name panicked: {pn}"), st);
+                    }
+                }
+            }
+            if n <= 1000 {
+                let got: std::collections::BTreeSet<String> = ar.file_names().map(|x| x.to_string()).collect();
+                let want: std::collections::BTreeSet<String> = count.keys().cloned().collect();
+                if got != want {
+                    ok = false;
+                    bad("file_names", None, format!("file_names() lists {} names, {} distinct names were written", got.len(), want.len()), st);
+                }
+            }
+        }
+    }
     if ok {
         let first = p.entries.first().map(|e| format!("{}:{}", ["file", "dir", "symlink"][e.kind.min(2) as usize], mname(e.expected_method()))).unwrap_or("empty".into());
         st.class(&format!("roundtrip-ok/{}-entries/first={first}", p.entries.len()));
@@ -527,6 +605,35 @@ pub fn enumerate(thorough: bool, seed: u64, f: &(dyn Fn(&Program, u64, &str, &mu
         });
         total_stats.merge(s);
     }
+    // (10) names that differ only in separator direction, case, a leading / trailing separator, a NUL, a space: every ordered pair
+    let shapes: Vec<String> = ["a/b", "a\\b", "A/B", "a/b/", "a\\b\\", "/a/b", "a//b", "./a/b", "a/b\0", "a/b ", "", " ", "a", "a/", "caf\u{e9}", "cafe\u{301}", "\u{feff}a", "a\u{a0}b"]
+        .iter()
+        .map(|s| s.to_string())
+        .collect();
+    let nsh = shapes.len();
+    let shapes_r = &shapes;
+    let s = par_for((nsh * nsh) as u64, 8, |i, st| {
+        let i = i as usize;
+        let (a, b) = (&shapes_r[i / nsh], &shapes_r[i % nsh]);
+        if a == b {
+            return;
+        }
+        let e0 = E { kind: 0, name: a.clone(), content: format!("first:{}", i).into_bytes(), opts: FOpts::m(0) };
+        let e1 = E { kind: 0, name: b.clone(), content: content_class(3, seed), opts: FOpts::m(8) };
+        f(&Program { entries: vec![e0, e1], comment: None, comment_last: false }, (10 << 32) + i as u64, "name-pairs", st);
+    });
+    total_stats.merge(s);
+    bounds.insert("name_pairs".into(), json!({"names": shapes, "programs": "every ordered pair of distinct names as a two-file archive"}));
+    // (11) comments longer than a buffered reader's refill (8 KiB) and around it
+    let clens = [8169usize, 8170, 8171, 8192, 8193, 16384, 40000, 65534];
+    let s = par_for(clens.len() as u64 * 2, 1, |i, st| {
+        let n = clens[i as usize / 2];
+        let comment: Vec<u8> = (0..n).map(|k| b"0123456789abcdefghijklmnopqrstuvw"[k % 33]).collect();
+        let entries = if i % 2 == 0 { vec![] } else { vec![E { kind: 0, name: "x".into(), content: content_class(2, seed), opts: FOpts::m(0) }] };
+        f(&Program { entries, comment: Some(comment), comment_last: i % 2 == 1 }, (11 << 32) + i, "long-comments", st);
+    });
+    total_stats.merge(s);
+    bounds.insert("long_comments".into(), json!({"lengths": clens, "entries": [0, 1]}));
     // (9) entry counts around the 16-bit limit x comment variants (the end records change shape at 65536 entries)
     let counts = [65_534usize, 65_535, 65_536, 65_537];
     let s = par_for((counts.len() * 3) as u64, 1, |i, st| {
@@ -555,9 +662,9 @@ pub fn run(args: &Args) -> i32 {
     let thorough = args.tier.thorough();
     ctx.rule = "E-PROD over writer programs: (1) length-1 full product kind x content x name x method/level x large x perm x time; \
         (2) every 9-bit permission value x 3 kinds; (3) every date word x 3 time words and 3 date words x every time word; \
-        (4) every documented method/level pair x every content class, and 25 content sizes at internal buffer boundaries (2..1.5 MiB, each written in ONE write call) x every method x {repeating, incompressible}; (5) comment variants; (9) 65534..65537 entries x 3 comment variants; (6) all length-2 and length-3 (thorough: 4) \
+        (4) every documented method/level pair x every content class, and 25 content sizes at internal buffer boundaries (2..1.5 MiB, each written in ONE write call) x every method x {repeating, incompressible}; (5) comment variants; (10) every ordered pair of 18 look-alike names; (11) comments of 8169..65534 bytes; (9) 65534..65537 entries x 3 comment variants; (6) all length-2 and length-3 (thorough: 4) \
         entry lists over reduced alphabets. Each program is executed twice (finish / drop) on the real writer and read back with the real \
-        seekable reader; the program is the reference model. distinct_nontrivial = distinct archive byte strings produced (hash set)."
+        seekable reader; the program is the reference model. Every archive is additionally opened through sources that return short reads (1-, 7-, 4093-byte pieces; BufReader of 8192 and 61 bytes) and must be observed identically; by_name of every name written once must return that entry, file_names() the set of names. distinct_nontrivial = distinct archive byte strings produced (hash set)."
         .into();
     ctx.assume("compressor internals (flate2/bzip2/zstd) are trusted; contents come from 5 (thorough 6) classes with seed-derived bytes");
     ctx.uncovered("arbitrary multi-MiB contents beyond the listed classes; joint variation of all axes at length >= 2 (reduced alphabets); sizes and offsets beyond 32 bits are C08's");
